@@ -14,7 +14,8 @@ RULE = (
     "2-3 source threads, each pushing a conforming sequence ('N'* then 'C' or 'E', <=3 elements) serially into its own "
     "Subject; the subjects are combined by reactivex.merge / ops.merge, merge_all, flat_map and merge(max_concurrent=n) "
     "(thread 0 is the OUTER source emitting the inner subjects 'I'* then 'C'/'E'; `pre` of its emissions are done before "
-    "the run), reactivex.zip / ops.zip, combine_latest (both forms), with_latest_from, ops.amb / reactivex.amb, and by "
+    "the run), reactivex.zip / ops.zip, combine_latest (both forms), with_latest_from (parent = first or last source), "
+    "ops.amb / reactivex.amb, and by "
     "window_with_time / window_with_time_or_count (one source thread that also sleeps 'S'=1 timespan / 's'=half a "
     "timespan on the fake clock, racing the operator's timer threads started through the patched TimeoutScheduler; the "
     "probe subscribes to every window with a child probe). One downstream probe (plus one per window) yields inside every "
@@ -25,7 +26,9 @@ RULE = (
     "(focus) for zip/combine_latest/with_latest_from/amb on NNC|NNC and NNE|NNC (thorough: all forms over {NC,NE,NNC,NNE}); gen: generated programs "
     "with a drawn descent of <=3 effective preemptions, every prefix schedule judged too. Oracle, every run, every probe: "
     "no callback starts while a callback of ANOTHER thread is in flight on the same probe (same-thread re-entrancy is not "
-    "counted); the calls in entry order match N*(E|C)?; no deadlock; no escaped exception. Nothing is demanded about "
+    "counted); the calls in entry order match N*(E|C)? (both reported under the one signature 'unserialized|<operator>': "
+    "behind AutoDetachObserver a grammar violation can only arise from two threads inside the downstream observer at "
+    "once); no deadlock; no escaped exception (signature names the file:function that raised). Nothing is demanded about "
     "WHICH values arrive. Non-trivial: in some explored run a thread executed a step inside its own emission (or a "
     "timer thread ran operator code) strictly between the entry and the return of another source's emission. "
     "Distinct = distinct case JSON."
@@ -43,7 +46,7 @@ TIMEOUT = {"quick": 300, "thorough": 3600}
 MERGE_ALL_FAMILY = ("merge_all", "flat_map", "merge_max")
 WINDOW_FAMILY = ("window_time", "window_time_count")
 FORMS = ("merge", "merge_op", "merge_all", "flat_map", "merge_max", "zip", "zip_op", "combine_latest", "combine_latest_op",
-         "with_latest_from", "amb", "amb_fn", "window_time", "window_time_count")  # fmt: skip
+         "with_latest_from", "with_latest_from_rev", "amb", "amb_fn", "window_time", "window_time_count")  # fmt: skip
 _FILES = {
     "merge": ["operators/_merge.py", "observable/merge.py"],
     "merge_op": ["operators/_merge.py", "observable/merge.py"],
@@ -55,6 +58,7 @@ _FILES = {
     "combine_latest": ["observable/combinelatest.py"],
     "combine_latest_op": ["observable/combinelatest.py", "operators/_combinelatest.py"],
     "with_latest_from": ["observable/withlatestfrom.py", "operators/_withlatestfrom.py"],
+    "with_latest_from_rev": ["observable/withlatestfrom.py", "operators/_withlatestfrom.py"],
     "amb": ["operators/_amb.py"],
     "amb_fn": ["operators/_amb.py", "observable/amb.py"],
     "window_time": ["operators/_windowwithtime.py"],
@@ -63,7 +67,7 @@ _FILES = {
 CULPRIT = {
     "merge": "merge_all", "merge_op": "merge_all", "merge_all": "merge_all", "flat_map": "merge_all", "merge_max": "merge_max",
     "zip": "zip", "zip_op": "zip", "combine_latest": "combine_latest", "combine_latest_op": "combine_latest",
-    "with_latest_from": "with_latest_from", "amb": "amb", "amb_fn": "amb", "window_time": "window_with_time",
+    "with_latest_from": "with_latest_from", "with_latest_from_rev": "with_latest_from", "amb": "amb", "amb_fn": "amb", "window_time": "window_with_time",
     "window_time_count": "window_with_time_or_count",
 }  # fmt: skip
 
@@ -111,6 +115,8 @@ def _build(case):
         obs = S[0].pipe(ops.combine_latest(*S[1:]))
     elif op == "with_latest_from":
         obs = S[0].pipe(ops.with_latest_from(*S[1:]))
+    elif op == "with_latest_from_rev":  # the parent is the LAST source: its thread comes after the children's in the default order
+        obs = S[-1].pipe(ops.with_latest_from(*S[:-1]))
     elif op == "amb":
         obs = S[0].pipe(ops.amb(S[1]))
     elif op == "amb_fn":
@@ -188,9 +194,11 @@ def _judge(ctx, res):
         if p.overlaps:
             kind, tid, others = p.overlaps[0]
             pair = "+".join(sorted([kind] + [k for k, _ in others]))
-            return f"overlap:{pair}", f"probe {p.name}: {kind} from thread {tid} started while {others} (kind, tid) in flight; calls so far {p.kinds()!r}"
+            return "unserialized", f"overlap: probe {p.name}: [{pair}] {kind} from thread {tid} started while {others} (kind, tid) in flight; calls so far {p.kinds()!r}"
         if not p.grammar_ok():
-            return "grammar", f"probe {p.name} saw {p.kinds()!r} (values {[e[1] for e in p.events]}, tids {[e[2] for e in p.events]})"
+            # every probe sits behind an AutoDetachObserver, which swallows a SEQUENTIAL second terminal / late on_next; a
+            # grammar violation at the probe therefore means two threads were inside that gate at once: same root cause
+            return "unserialized", f"grammar: probe {p.name} saw {p.kinds()!r} (values {[e[1] for e in p.events]}, tids {[e[2] for e in p.events]})"
     return None
 
 
@@ -323,7 +331,7 @@ def _enum_k2(tier):
     (zip, combine_latest, with_latest_from) or where the first racing step is a decision (amb): with one preemption the
     preempting thread always runs to its end, so the two sources are never both in the middle of an emission."""
     if tier == "quick":
-        progs = [(op, srcs, {}) for op in ("zip", "combine_latest", "with_latest_from", "amb") for srcs in (["NNC", "NNC"], ["NNE", "NNC"])]
+        progs = [(op, srcs, {}) for op in ("zip", "combine_latest", "with_latest_from", "with_latest_from_rev", "amb") for srcs in (["NNC", "NNC"], ["NNE", "NNC"])]
         m = 4
     else:
         progs = list(_plain(["NC", "NE", "NNC", "NNE"]))
@@ -371,7 +379,7 @@ _gen = st.sampled_from(FORMS).flatmap(_gen_for)
 
 def checks(tier):
     return [
-        Check("enum-k1", run, cases=_enum_k1, shards={"quick": 8, "thorough": 16}, exhaustive=True),
-        Check("enum-k2", run, cases=_enum_k2, shards={"quick": 8, "thorough": 16}, exhaustive=True),
-        Check("gen", run, strategy=_gen, examples={"quick": 400, "thorough": 16 * 6000}, shards={"quick": 8, "thorough": 16}),
+        Check("enum-k1", run, cases=lambda tier: conc.scaled(_enum_k1(tier), tier), shards={"quick": 8, "thorough": 16}, exhaustive=True),
+        Check("enum-k2", run, cases=lambda tier: conc.scaled(_enum_k2(tier), tier), shards={"quick": 8, "thorough": 16}, exhaustive=True),
+        Check("gen", run, strategy=_gen, examples={"quick": 400, "thorough": 16 * 3000}, shards={"quick": 8, "thorough": 16}),
     ]
